@@ -122,7 +122,7 @@ CLAIMED = {
         "Every operation is also modelled statement by statement and tied to the real code after EVERY step of generated "
         "histories (1..12 operations, all single operations on every small index, forced reads in between), with the NumPy "
         "reference semantics evaluated on the real code as the oracle, operands byte-compared (and still well-formed) and "
-        "requested copies checked for shared storage. common_rowids, the re-encoding block of shift_common, append and filtered (up "
+        "requested copies checked for shared storage. common_rowids, the forced queries get / items, the re-encoding block of shift_common, append and filtered (up "
         "to their final shift_common) are REGENERATED from the source on every run and proved equal to the modelled operations.",
         "Trusted: Lean kernel; the hand-written iindex model is tied to the code by correspondence for the operations that are not regenerated; NumPy primitives as list functions.",
         "Lean 4 proof (refinement per operation + induction over histories, partial) + per-step history correspondence + common_rowids, the re-encoding block of shift_common and append regenerated from the source (translator) and proved to be the modelled query / operations",
